@@ -219,6 +219,11 @@ Definition to_root_gen (inpl : bool) (r : reg) (auto : bool) (q : quantity) : re
 Definition to_root := to_root_gen false.      (* to_root_units *)
 Definition ito_root := to_root_gen true.      (* ito_root_units *)
 
+(** the [dimensionless] property: it goes through [to_root_units] (and so raises for containers
+    that do not convert) *)
+Definition is_dimensionless (r : reg) (auto : bool) (q : quantity) : res bool :=
+  q' ←r to_root r auto q; d ←r dim_of r q'.2; Ok (uc_eqb d ∅).
+
 (** [_has_compatible_delta(unit)] *)
 Definition has_compatible_delta (r : reg) (u : uc) (unit : string) : bool :=
   let ds := delta_units u in
@@ -274,11 +279,10 @@ Definition single_order1 (nm : list (string * Qc)) : option string :=
 (** other is not a quantity: [zero_or_nan] keeps the unit; a dimensionless self is reduced first *)
 Definition add_sub_num (inpl : bool) (r : reg) (auto sub : bool) (xa : Qc) (ua : uc) (y : Qc) : astag * res quantity :=
   if qz y then (ANumZero, Ok (aop2 sub xa y, ua))
-  else match dim_of r ua with
+  else match is_dimensionless r auto (xa, ua) with
        | Err e => (AEarly, Err e)
-       | Ok d =>
-           if uc_eqb d ∅ then (ANumDimless, x ←r convert_gen inpl r auto xa ua ∅; Ok (aop2 sub x y, ∅))
-           else (ANumRefuse, Err EDim)
+       | Ok true => (ANumDimless, x ←r convert_gen inpl r auto xa ua ∅; Ok (aop2 sub x y, ∅))
+       | Ok false => (ANumRefuse, Err EDim)
        end.
 (** [inpl = false]: [_add_sub]; [inpl = true]: [_iadd_sub], whose conversions of [self] use the
     in-place converter forms ([_convert_magnitude], [ito]) while [other.to(...)] stays functional *)
@@ -443,8 +447,8 @@ Definition cmp_sem (o : cmpop) (x y : Qc) : bool :=
 Definition q_compare (r : reg) (auto : bool) (o : cmpop) (a b : operand) : res bool :=
   match a, b with
   | OQty xa ua, ONum y =>
-      d ←r dim_of r ua;
-      if uc_eqb d ∅ then x ←r convert r auto xa ua ∅; Ok (cmp_sem o x y)
+      dl ←r is_dimensionless r auto (xa, ua);
+      if dl then x ←r convert r auto xa ua ∅; Ok (cmp_sem o x y)
       else if qz y then
         nm ←r nonmult_units r ua;
         match nm with
@@ -471,10 +475,18 @@ Definition q_eq (r : reg) (auto : bool) (a b : operand) : res bool :=
         | _ => if auto then q ←r to_root r auto (xa, ua); Ok (bool_decide (q.1 = y)) else Err EOffset
         end
       else
-        d ←r dim_of r ua;
-        if uc_eqb d ∅ then x ←r convert r auto xa ua ∅; Ok (bool_decide (x = y)) else Ok false
+        dl ←r is_dimensionless r auto (xa, ua);
+        if dl then x ←r convert r auto xa ua ∅; Ok (bool_decide (x = y)) else Ok false
   | OQty xa ua, OQty xb ub =>
-      if qz xa && qz xb then
+      sc ←r (if qz xa && qz xb then
+               (* both magnitudes zero: shortcut, for multiplicative units only *)
+               nma ←r nonmult_units r ua;
+               match nma with
+               | [] => nmb ←r nonmult_units r ub; Ok (match nmb with [] => true | _ => false end)
+               | _ => Ok false
+               end
+             else Ok false);
+      if (sc : bool) then
         da ←r dim_of r ua; db ←r dim_of r ub; Ok (uc_eqb da db)
       else if uc_eqb ua ub then Ok (bool_decide (xa = xb))
       else match convert r auto xa ua ub with
